@@ -701,9 +701,15 @@ func (g *GenOpts) write(t *TemplateOpts, data interface{}) error {
 // with a different name: name mangling is many-to-one (e.g. "a-b" and "a_b"), and writing both
 // objects to the same file would silently drop one of them.
 func (g *GenOpts) checkTargetCollision(t *TemplateOpts, data interface{}, target string) error {
+	// identify the object by its name in the spec when it is known (x-go-name may give the same Go name
+	// to several definitions), and operation groups by their package alias
 	var name string
-	if fld := reflect.Indirect(reflect.ValueOf(data)).FieldByName("Name"); fld.IsValid() && fld.Kind() == reflect.String {
-		name = fld.String()
+	v := reflect.Indirect(reflect.ValueOf(data))
+	for _, field := range []string{"OriginalName", "PackageAlias", "Name"} {
+		if fld := v.FieldByName(field); fld.IsValid() && fld.Kind() == reflect.String && fld.String() != "" {
+			name = fld.String()
+			break
+		}
 	}
 	source := fmt.Sprintf("%q (template %s)", name, t.Name)
 
